@@ -181,6 +181,12 @@ def conditioning(ctx):
                 if not abs(got - w_) <= 1e-6 * max(1.0, abs(w_)):
                     ctx.violation(f"kge component {v} = {got!r} differs from the documented formula in exact arithmetic ({w_!r}) on a series with offset {K}",
                                   desc, w_, got)
+        # scaling factors enter inside the squares: 1 - sqrt((s_rho (rho-1))^2 + (s_alpha (alpha-1))^2 + (s_beta (beta-1))^2)
+        sc = [rng.choice([0.5, 2.0, 3.0, 0.25]) for _ in range(3)]
+        ks = core.call_impl(S.continuous.kge, f, o, scaling_factors=sc)
+        wk = 1 - math.sqrt((sc[0] * (rho - 1)) ** 2 + (sc[1] * (alpha - 1)) ** 2 + (sc[2] * (beta - 1)) ** 2)
+        if ks[0] != "ok" or not abs(float(ks[1]) - wk) <= 1e-6 * max(1.0, abs(wk)):
+            ctx.violation(f"kge with scaling_factors={sc} = {ks[1] if ks[0] != 'ok' else float(ks[1])!r} differs from the documented formula ({wk!r})", dict(desc, scaling_factors=sc), wk, str(ks[1])[:60])
         from scores.continuous.correlation import pearsonr
         r = core.call_impl(pearsonr, f, o)
         if r[0] == "ok" and not abs(float(r[1]) - rho) <= 1e-6:
